@@ -56,6 +56,17 @@ Proof.
   eapply Inv_agg_same; eauto; lia.
 Qed.
 
+Ltac rpc_after_ttl_reset k a4 s4 :=
+  match goal with
+  | |- Inv (lock_rpc _ _ ?as_ ?rv ?ce ?loie ?f ?o (if ?c then ka_reset s4 else s4)) =>
+    destruct c;
+    [ let K := fresh "K" in
+      destruct (ka_ops_fields s4 ka_reset) as (K1&K2&K3&K4&K5&K6&K7&K8&K9&K10&_); auto;
+      apply (lock_rpc_agg k a4 as_ rv ce loie f o (ka_reset s4));
+      [congruence | apply Inv_ka_reset; auto | unfold book_ok in *; rewrite K3, K4, K5; auto | congruence | auto]
+    | apply (lock_rpc_agg k a4 as_ rv ce loie f o s4); auto ]
+  end.
+
 Lemma lock_pess_Inv keys rv ce loie f o s :
   Inv s -> valid s = true -> pess s = true -> fu s <= f ->
   (forall a, agg s = Some a -> exists k, keys = [k] /\ findk k (cur a) = None) ->
@@ -82,8 +93,8 @@ Proof.
         -- simpl. apply skip_Inv with e; auto.
            destruct (negb (aprim a4) || opt_eqb (alastpk a4) (apk a4)); [|discriminate].
            destruct (lo_expired o); [discriminate|]. eapply try_skip_lwc; eauto.
-        -- simpl. rewrite set_agg_same; auto. apply (lock_rpc_agg k a4 assigned rv ce loie f o s4); auto.
-    + simpl. rewrite set_agg_same; auto. apply (lock_rpc_agg k a4 assigned rv ce loie f o s4); auto.
+        -- simpl. rewrite set_agg_same; auto. rpc_after_ttl_reset k a4 s4.
+    + simpl. rewrite set_agg_same; auto. rpc_after_ttl_reset k a4 s4.
   - simpl. apply lock_rpc_noagg; auto.
 Qed.
 
@@ -94,8 +105,12 @@ Proof.
   intros HInv. unfold exit_agg. destruct (agg s) as [a|] eqn:Ea; simpl.
   - destruct (many ks) eqn:Em.
     + split; [apply Inv_agg_done; auto|]. unfold agg_done. rewrite Ea.
-      pose proof (cleanup_props a s) as CP. cbv zeta in CP. destruct CP as (_ & _ & _ & C4 & _ & _ & C7 & _).
-      simpl. repeat split; auto. intros a' H; discriminate.
+      set (s0 := if alastprim a && negb (aprim a) then ka_reset s else s).
+      assert (E0 : valid s0 = valid s /\ fu s0 = fu s).
+      { unfold s0. destruct (alastprim a && negb (aprim a)); auto.
+        destruct (ka_ops_fields s ka_reset) as (_&_&K3&_&_&K6&_); auto. }
+      pose proof (cleanup_props a s0) as CP. cbv zeta in CP. destruct CP as (_ & _ & _ & C4 & _ & _ & C7 & _).
+      destruct E0 as [E1 E2]. simpl. rewrite C4, C7, E1, E2. repeat split; auto. intros a' H; discriminate.
     + split; [exact HInv|]. repeat split; auto.
   - split; [exact HInv|]. repeat split; auto. intros a H. congruence.
 Qed.
